@@ -50,6 +50,8 @@ int main(int argc, char **argv) {
             if (!strcmp(name, "envnull")) environ = NULL;
             else if (!strcmp(name, "envempty")) { static char *none[1] = { NULL }; environ = none; }
             else if (!strcmp(name, "envhuge")) { for (int i = 0; i < 400; i++) { char nm[32]; snprintf(nm, sizeof nm, "HUGE%d", i); setenv(nm, mkpat(50 + i, i), 1); } }
+            else if (!strncmp(name, "sudo", 4) && atoi(name + 4) > 0) { setenv("SUDO_USER", mkpat((size_t) atoi(name + 4), 5), 1); setenv("LOGNAME", "lognamer", 1); }
+            else if (!strncmp(name, "logname", 7) && atoi(name + 7) > 0) { unsetenv("SUDO_USER"); setenv("LOGNAME", mkpat((size_t) atoi(name + 7), 6), 1); }
             else if (!strcmp(name, "argvlong")) cargv = cargv_long;
             else if (!strcmp(name, "argvnull")) cargv = NULL;
             printf("STATE %s\n", name);
